@@ -100,6 +100,10 @@ class CMultiply(Contract):
         ex.oblige(f"pre({site}).dtype_handled", compiled_dtype(p.dtype), "precondition", node,
                   note="other dtypes are silently skipped by the compiled setter: memory stays unwritten")
         ex.oblige(f"pre({site}).product_dtype_is_field_dtype", result_type(x1.dtype, x2.dtype) == p.dtype, "precondition", node)
+        cc = getattr(p, "c_contiguous", None)
+        ex.oblige(f"pre({site}).target_is_c_contiguous", cc if cc is not None else z3.Bool(ctx.fresh("c_contiguous_target")), "precondition", node,
+                  note="the kernel is handed out_.values.ravel(): a view of the target only when the target is C-contiguous, a copy "
+                       "(whose content is lost) otherwise")
         ex.oblige(f"pre({site}).code_points_fit_one_byte", ctx.forall_range(0, x1.N, lambda i: ctx.forall_range(0, x2.N, lambda j: ctx.forall_range(
             0, x1.D, lambda d: z3.And(expo(x1.row(i), d) + expo(x2.row(j), d) + g["K"] >= 1, expo(x1.row(i), d) + expo(x2.row(j), d) + g["K"] < 128)))),
             "precondition", node, note="sprintf('%c') writes one byte per exponent; 128.. is not valid UTF-8 on its own")
